@@ -36,7 +36,7 @@ pub open spec fn state_matches(r: store::PaymentState, w: World) -> bool {
       trampoline.invoice.hash_spec() == old(w).hash
 //@ requires#exclusive
       !old(w).released
-//@ requires#no_rpc_under_lock [C14,C06]
+//@ requires#no_rpc_under_lock [C14,C06,C11]
       !old(w).lock_held
 //@ ensures#rely
       rely(World { wait_started_ns: final(w).wait_started_ns, ..*old(w) }, *final(w))
@@ -52,7 +52,7 @@ pub open spec fn state_matches(r: store::PaymentState, w: World) -> bool {
       trampoline.invoice.hash_spec() == old(w).hash
 //@ requires#exclusive
       !old(w).released
-//@ requires#no_rpc_under_lock [C14,C06]
+//@ requires#no_rpc_under_lock [C14,C06,C11]
       !old(w).lock_held
 //@ requires#inv [C08]
       inv(*old(w))
@@ -78,7 +78,7 @@ pub open spec fn state_matches(r: store::PaymentState, w: World) -> bool {
 //@ ghostparam Tracked(w): Tracked<&mut World>
 //@ requires#hash
       trampoline.invoice.hash_spec() == old(w).hash
-//@ requires#no_rpc_under_lock [C14,C06]
+//@ requires#no_rpc_under_lock [C14,C06,C11]
       !old(w).lock_held
 //@ requires#inv [C08]
       inv(*old(w))
@@ -108,7 +108,7 @@ pub open spec fn state_matches(r: store::PaymentState, w: World) -> bool {
 //@ ghostparam Tracked(w): Tracked<&mut World>
 //@ requires#hash
       trampoline.invoice.hash_spec() == old(w).hash
-//@ requires#no_rpc_under_lock [C14,C06]
+//@ requires#no_rpc_under_lock [C14,C06,C11]
       !old(w).lock_held
 //@ requires#inv [C08]
       inv(*old(w))
